@@ -192,7 +192,8 @@ def run(ctx):
                 'values routed over 1-4 hops through public/private in/out, component_1/2 and variable_1/2 randomly '
                 'swapped, shuffled file order, units of equal dimension and different scale (volt/mV/uV, second/ms, '
                 'dimensionless/percent, a user base unit and its kilo-multiple, areas m2 / 0.5 m2 / 0.25 (cm)2 that combine '
-                'multiplier, prefix and exponent, half-integer powers of second / ms, two unit names uv_x / ut_x whose definition '
+                'multiplier, prefix and exponent, half-integer powers of second / ms, gram with every one of the 20 SI prefix names and integer prefixes (3 + 1 per '
+                'document, rotating so that all occur within 7 documents), two unit names uv_x / ut_x whose definition '
                 'changes from document to document), assignments over + - * / ** exp, ODEs, '
                 'derivatives on right-hand sides, initial-value constants, cmeta ids; every variable compared at 3 random '
                 'states; the 9x9x4 two-component interface documents in both orientations (quick: 60 of 324); the same document under two meanings of uv_x / ut_x '
